@@ -100,7 +100,9 @@ Section P.
          then mkPres OPersist (if dry_run c then w else record_states (edges_record E w w t) w rt) [] []
     else
       let verdict :=
-        if force c || is_gen t then inr true
+        if is_gen t then inr true
+        else if negb (preds_exist Ec w rt) then inl true
+        else if force c then inr true
         else check_loop w rt (neighbours Ec rt) (fun k => memN k (pred_nodes Ec rt) || N.eqb k i) in
       match verdict with
       | inl _ => mkPres OFail w [] []
@@ -172,7 +174,9 @@ Section PBuild.
         (* re-create the DAG when the project grew *)
         let regraph := match new with
                        | [] => Some (pb_edges b, pb_desel b)
-                       | _ => match pdag c ts' with DagOk E d => Some (E, d) | DagErr => None end
+                       (* a task deselected by -k/-m carries a skip marker; the marker stays on it when the
+                          graph is re-created, also if a new task that is selected depends on it *)
+                       | _ => match pdag c ts' with DagOk E d => Some (E, pb_desel b ++ d) | DagErr => None end
                        end in
         match regraph with
         | None =>
